@@ -80,6 +80,31 @@ fn weird_u64(rng: &mut Rng, around: u64) -> u64 {
     }
 }
 
+/// A crashed batch: an ACTIVE journal (newest generation) naming the extents of live records in
+/// allocation order, i.e. not sorted by sector.
+pub fn pending_batch_journal(rng: &mut Rng, img: &mut Vec<u8>) -> Option<&'static str> {
+    let version = image_version(img);
+    let mut pool = head_sectors(img);
+    if pool.len() < 2 {
+        return None;
+    }
+    let mut exts = Vec::new();
+    for _ in 0..rng.range(2, 5).min(pool.len() as u64) {
+        let i = rng.below(pool.len() as u64) as usize;
+        let s = pool.swap_remove(i);
+        exts.push((s as u64, claimed_blocks(img, s, version).max(1)));
+    }
+    if rng.chance(1, 2) {
+        exts.sort();
+        exts.reverse();
+    }
+    let slot = rng.below(2) as usize;
+    let enc = pure::journal_encode_active(1 << 40, &exts).ok()?;
+    let base = (1 + 3 * slot) * B;
+    img[base..base + enc.len()].copy_from_slice(&enc);
+    Some("pending-batch-journal")
+}
+
 /// Apply one mutation; returns its name.
 pub fn mutate(rng: &mut Rng, img: &mut Vec<u8>) -> &'static str {
     let nb = blocks(img);
@@ -189,6 +214,9 @@ pub fn mutate(rng: &mut Rng, img: &mut Vec<u8>) -> &'static str {
             };
             let n = rng.range(1, 6);
             let mut exts = Vec::new();
+            if heads.len() >= 2 && rng.chance(1, 2) {
+                return pending_batch_journal(rng, img).unwrap_or("forged-journal");
+            }
             for _ in 0..n {
                 let s = rng.range(16, nb as u64 - 1);
                 let len = match rng.below(5) {
